@@ -256,6 +256,43 @@ def run(ctx):
         ctx.notes.append("strace not available; part (e) skipped")
     ctx.cov["runs_with_injected_syscall_fault"] = ptrace_runs
 
+    # ---- (f) COMPRESSED stdin arriving in small pieces (a pipe fed by a slow producer): the decoders fill their 16 KiB input buffer
+    # with several read(2) calls; the k-th of them fails once with EIO.  Every k, gzip / bzip2 / xz, tools with different readers.
+    import gzip as _gz, bz2 as _bz2, lzma as _lz
+    plain = b"".join(b"line %d of a text that is long enough to need several buffer fills\n" % (i * 7919 % 10007) for i in range(4000))
+    packed = {"gzip": _gz.compress(plain, 1), "bzip2": _bz2.compress(plain, 1), "xz": _lz.compress(plain, preset=0)}
+    fired_f = 0
+    for codec, blob in packed.items():
+        for tool, args in (("order_independent_hash", []), ("remove_long_lines", ["1000"]), ("dedupe", [])):
+            ks = list(range(1, 12)) + [15, 20, 30, 45] if ctx.tier == "quick" else list(range(1, 80))
+            for k in ks:
+                rep = os.path.join(ctx.tmp, "rep_f.txt")
+                if os.path.exists(rep):
+                    os.unlink(rep)
+                e = pvlib.san_env({"LD_PRELOAD": shim, "PV_FAULTS": f"r{k}=e5", "PV_FAULT_REPORT": rep, "PV_FAULT_FDS": "0",
+                                   "PV_FAULT_RANDOM": f"{ctx.seed}:100:0", "PV_FAULT_MAXSHORT": "1500"})
+                e["ASAN_OPTIONS"] += ":verify_asan_link_order=0"
+                st, out, err = pvlib.run_tool([ctx.bin(tool)] + args, blob, env=e, timeout=60)
+                did = os.path.exists(rep) and "rule=1" in open(rep).read()
+                if not did:
+                    break               # fewer than k reads
+                fired_f += 1
+                ctx.count("compressed-stdin-read-fault", 1, [(codec, tool, k)])
+                if not nonzero(st):
+                    pvlib.report_violation(ctx, f"zread-fault:{codec}:{tool}:{k}", {
+                        "argv": [tool] + args, "stdin": f"{codec} of {len(plain)} bytes of text, delivered at most 1500 bytes per read(2)", "env": {"PV_FAULTS": f"r{k}=e5", "PV_FAULT_FDS": "0",
+                        "PV_FAULT_RANDOM": f"{ctx.seed}:100:0", "PV_FAULT_MAXSHORT": "1500"}, "status": st, "stdout_bytes": len(out), "stderr": err.decode(errors="replace")[-300:]},
+                        summary=f"{tool} reading {codec} input in pieces of at most 1500 bytes: read(2) number {k} of stdin failed with EIO and the tool "
+                                f"{'hung' if st == 'HANG' else 'exited 0'} ({len(out)} bytes of output)")
+                    break
+            else:
+                continue
+            if ctx.violations:
+                break
+        if ctx.violations:
+            break
+    ctx.cov["compressed_stdin_faults_fired"] = fired_f
+
 
 def search(ctx, broken):
     pass   # run() already enumerates child deaths and failing calls; nothing wider to try
